@@ -2,7 +2,7 @@
 use crate::util::*;
 use crate::Ctx;
 use anyhow::Result;
-use versatiles_core::types::{TileBBox, TileBBoxPyramid, TileCoord2, TileCoord3};
+use versatiles_core::types::{GeoBBox, TileBBox, TileBBoxPyramid, TileCoord2, TileCoord3};
 use versatiles_core::utils::TransformCoord;
 
 pub fn mk(z: u8, x0: u32, y0: u32, x1: u32, y1: u32) -> TileBBox {
@@ -53,6 +53,11 @@ pub fn eval(op: &str, a: &[&str]) -> String {
 		"py.contains" => b01(ppy(a[0]).contains_coord(&TileCoord3 { x: n(2), y: n(3), z: n(1) as u8 })),
 		"py.overlaps" => b01(ppy(a[0]).overlaps_bbox(&pb(a[1]))),
 		"py.border" => out_of(guarded(|| { let mut p = ppy(a[0]); p.add_border(n(1), n(2), n(3), n(4)); p }), |p| format!("ok:{}", fpy(&p))),
+		"geo.axis" => { // S G n uw ue  with  n = 2^z, S = 2^q * 10^6, G = the guard in sub-units, u = 2^z * p * 10^6: longitudes 360 p / 2^q - 180 (exact in f64)
+			let v: Vec<u128> = a.iter().map(|t| t.parse::<u128>().unwrap()).collect();
+			let (z, q) = (v[2].trailing_zeros(), v[0].trailing_zeros() - 6);
+			let lon = |u: u128| -> f64 { let p = u / (v[2] * 1_000_000); (p as f64) * 360.0 / (2f64.powi(q as i32)) - 180.0 };
+			match guarded(|| TileBBox::from_geo(z as u8, &GeoBBox(lon(v[3]), -10.0, lon(v[4]), 10.0))) { Ok(Ok(b)) => format!("{} {}", b.x_min, b.x_max), Ok(Err(_)) => "err".into(), Err(_) => "panic".into() } }
 		"bb.new" => res(guarded(|| TileBBox::new(n(0) as u8, n(1), n(2), n(3), n(4))), |b| fb(&b)),
 		"bb.full" => res(guarded(|| TileBBox::new_full(n(0) as u8)), |b| fb(&b)),
 		"bb.emptynew" => res(guarded(|| TileBBox::new_empty(n(0) as u8)), |b| fb(&b)),
@@ -319,6 +324,93 @@ fn spec_large(b: &TileBBox, rng: &mut Rng, v: &mut Vec<SpecV>) {
 /// boxes the public constructors and set operations can produce (fields <= max, or canonical empties)
 fn wf(b: &TileBBox) -> bool { b.x_max <= b.max && b.y_max <= b.max && b.x_min <= b.max + 1 && b.y_min <= b.max + 1 }
 
+/// independent real-valued tile coordinates of a geographic point (other formulas than the code's)
+pub fn geo_u(z: u8, lon: f64, lat: f64) -> (f64, f64) {
+	let n = 2f64.powi(z as i32);
+	let ux = (lon + 180.0) / 360.0 * n;
+	let phi = lat.to_radians();
+	let uy = if lat >= 90.0 { f64::NEG_INFINITY } else if lat <= -90.0 { f64::INFINITY } else { (1.0 - phi.tan().asinh() / std::f64::consts::PI) / 2.0 * n };
+	(ux, uy)
+}
+/// is `b` a tile box that from_geo may give for the geographic box g = [west, south, east, north] at level z?
+/// guard as documented (1e-6 tile, 2^(z-49) from level 30 on); independent coordinates known up to delta
+pub fn geo_allowed(z: u8, g: &[f64; 4], b: &TileBBox) -> (bool, bool, (u32, u32), (u32, u32), (u32, u32), (u32, u32)) {
+	let guard = if z <= 29 { 1e-6 } else { 2f64.powi(z as i32 - 49) };
+	let delta = 2e-7 + 2f64.powi(z as i32) * 2e-14;
+	let (uw, un) = geo_u(z, g[0], g[3]); let (ue, us) = geo_u(z, g[2], g[1]);
+	let (xl, xh) = (cell_range(uw, guard, delta, z), cell_range(ue, -guard, delta, z));
+	let (yl, yh) = (cell_range(un, guard, delta, z), cell_range(us, -guard, delta, z));
+	// the code orders the two corners per axis
+	let ok_x = b.x_min >= xl.0.min(xh.0) && b.x_min <= xl.1.min(xh.1) && b.x_max >= xl.0.max(xh.0) && b.x_max <= xl.1.max(xh.1);
+	let ok_y = b.y_min >= yl.0.min(yh.0) && b.y_min <= yl.1.min(yh.1) && b.y_max >= yl.0.max(yh.0) && b.y_max <= yl.1.max(yh.1);
+	(ok_x, ok_y, xl, xh, yl, yh)
+}
+/// [lowest, highest] cell index that floor(u + shift) may take when u is known up to +-delta, clamped to the level
+pub fn cell_range(u: f64, shift: f64, delta: f64, z: u8) -> (u32, u32) {
+	let m = ((1u64 << z) - 1) as f64;
+	let c = |v: f64| -> u32 { if v.is_nan() { 0 } else { v.floor().max(0.0).min(m) as u32 } };
+	(c(u + shift - delta), c(u + shift + delta))
+}
+fn geo_section(w: &mut W, rng: &mut Rng, specv: &mut Vec<SpecV>, spec_cases: &mut u64, thorough: bool) {
+	// (1) the discrete stage against the Coq model: longitudes whose tile coordinate is exact in f64, on and around tile edges
+	let offs: [i64; 15] = [0, 1, -1, 1 << 10, -(1 << 10), (1 << 20) - 1, 1 - (1 << 20), 1 << 20, -(1 << 20), 1 << 21, -(1 << 21), 1 << 39, -(1 << 39), 3 << 30, -(3 << 30)];
+	let q = 40u32; // sub-tile resolution 2^-40 * 2^z; 2^-20 tile = 0.95e-6 < guard < 2^-19
+	for z in 0..=31u8 {
+		let n = 1u64 << z;
+		// the guard as documented, not taken from the code: 1e-6 tile, from level 30 on 8 eps 2^z = 2^(z-49) tile
+		let guard_units: u128 = if z <= 29 { 1u128 << q } else { 1_000_000u128 << (z as u32 + q - 49) }; let per_tile: i64 = 1i64 << (q - z as u32);
+		let cells: Vec<u64> = if z <= 3 { (0..=n).collect() } else { let mut v = vec![0, 1, 2, n / 2, n - 1, n]; for _ in 0..(if thorough { 12 } else { 4 }) { v.push(rng.below(n + 1)); } v };
+		for &cw in &cells { for &ce in &cells { if ce < cw { continue; }
+			for _ in 0..(if z <= 3 { 6 } else { 3 }) {
+				let (ow, oe) = (*rng.pick(&offs), *rng.pick(&offs));
+				let pw = (cw as i64 * per_tile + ow).clamp(0, 1i64 << q); let pe = (ce as i64 * per_tile + oe).clamp(0, 1i64 << q);
+				if pe < pw { continue; }
+				let big = |p: i64| -> String { ((p as u128) * (n as u128) * 1_000_000u128).to_string() };
+				w.emit("geo.axis", &[((1u128 << q) * 1_000_000).to_string(), guard_units.to_string(), n.to_string(), big(pw), big(pe)]);
+			}
+		} }
+	}
+	// (2) tile box -> geographic bounds -> tile box, all levels (every box of levels 0..3, all single tiles of 4..7, rows/columns/corners of deeper ones)
+	let mut boxes: Vec<TileBBox> = Vec::new();
+	for z in 0..=3u8 { for b in all_boxes(z) { if wf(&b) && !b.is_empty() { boxes.push(b); } } }
+	for z in 4..=7u8 { let n = 1u32 << z; for x in 0..n { for y in 0..n { if z <= 5 || rng.chance(1, if thorough { 2 } else { 8 }) { boxes.push(TileBBox::new(z, x, y, x, y).unwrap()); } } } }
+	for z in 4..=31u8 { let m = ((1u64 << z) - 1) as u32;
+		for _ in 0..(if thorough { 400 } else { 60 }) {
+			let pick = |rng: &mut Rng| -> u32 { match rng.below(6) { 0 => 0, 1 => m, 2 => m / 2, 3 => m / 2 + 1, _ => rng.below(m as u64 + 1) as u32 } };
+			let (x0, y0) = (pick(rng), pick(rng)); let (x1, y1) = (if rng.chance(1, 2) { x0 } else { pick(rng).max(x0) }, if rng.chance(1, 2) { y0 } else { pick(rng).max(y0) });
+			boxes.push(TileBBox::new(z, x0, y0, x1, y1).unwrap());
+		} }
+	for b in &boxes {
+		*spec_cases += 1; *w.stats.entry("geo:roundtrip".into()).or_insert(0) += 1;
+		let g = b.as_geo_bbox();
+		match guarded(|| TileBBox::from_geo(b.level, &g)) {
+			Ok(Ok(back)) => if &back != b { specv.push(SpecV { kind: "geo-roundtrip", input: format!("geo.roundtrip {}", fb(b)), detail: format!("as_geo_bbox = {g:?}, from_geo gives {}", fb(&back)) }); },
+			other => specv.push(SpecV { kind: "geo-roundtrip", input: format!("geo.roundtrip {}", fb(b)), detail: format!("as_geo_bbox = {g:?}, from_geo: {:?}", other.map(|r| r.map(|b| fb(&b)).map_err(|e| e.to_string()))) }),
+		}
+	}
+	// (3) every valid geographic box maps to a non-empty tile box that covers it up to the guard (independent coordinates, error-aware)
+	let lons = [-180.0, -179.9999999, -90.0, -0.0000001, 0.0, 1e-9, 13.4, 90.0, 179.9999999, 180.0]; let lats = [-90.0, -89.9, -85.05112877980659, -85.0511, -60.0, -1e-9, 0.0, 1e-9, 52.5, 66.51326044311186, 85.0511, 85.05112877980659, 85.06, 89.999999, 90.0];
+	for _ in 0..(if thorough { 60000 } else { 8000 }) {
+		let z = rng.below(32) as u8;
+		let mut lon = |rng: &mut Rng| -> f64 { if rng.chance(1, 3) { *rng.pick(&lons) } else { (rng.below(3_600_000_001) as f64) / 1e7 - 180.0 } };
+		let (a, b2) = (lon(rng), lon(rng)); let (west, mut east) = (a.min(b2), a.max(b2));
+		let mut lat = |rng: &mut Rng| -> f64 { if rng.chance(1, 3) { *rng.pick(&lats) } else { (rng.below(1_800_000_001) as f64) / 1e7 - 90.0 } };
+		let (c, d) = (lat(rng), lat(rng)); let (south, mut north) = (c.min(d), c.max(d));
+		match rng.below(6) { 0 => { east = west; north = south; } 1 => { east = (west + 1e-9).min(180.0); north = (south + 1e-9).min(90.0); } _ => {} }
+		let g = GeoBBox(west, south, east, north);
+		*spec_cases += 1; *w.stats.entry("geo:cover".into()).or_insert(0) += 1;
+		let input = format!("geo.cover {z} {west:?} {south:?} {east:?} {north:?}");
+		match guarded(|| TileBBox::from_geo(z, &g)) {
+			Ok(Ok(b)) => {
+				if b.is_empty() || b.x_max > b.max || b.y_max > b.max { specv.push(SpecV { kind: "geo-empty", input, detail: format!("valid geographic box maps to {}", fb(&b)) }); continue; }
+				let (ok_x, ok_y, xl, xh, yl, yh) = geo_allowed(z, &[west, south, east, north], &b);
+				if !ok_x || !ok_y { specv.push(SpecV { kind: "geo-cover", input, detail: format!("from_geo gives {}, independent coordinates allow x_min {:?} x_max {:?} y_min {:?} y_max {:?}", fb(&b), xl, xh, yl, yh) }); }
+			}
+			other => specv.push(SpecV { kind: "geo-error", input, detail: format!("valid geographic box rejected: {:?}", other.map(|r| r.map(|b| fb(&b)).map_err(|e| e.to_string()))) }),
+		}
+	}
+}
+
 pub fn run(ctx: &Ctx) -> Result<()> {
 	let mut out = Out::create(&ctx.out, "cases.txt")?;
 	let mut specv: Vec<SpecV> = Vec::new();
@@ -408,6 +500,7 @@ pub fn run(ctx: &Ctx) -> Result<()> {
 					}
 				}
 			}
+			geo_section(&mut w, &mut rng, &mut specv, &mut spec_cases, ctx.thorough);
 			// sampled large zoom with border coordinates
 			let n = if ctx.thorough { 60000 } else { 6000 };
 			for _ in 0..n {
